@@ -129,6 +129,25 @@ Section Pass.
     destruct (cmp_sem num ltb leb eqb o x y); reflexivity.
   Qed.
 
+  (* `l <o> r and c2`: when the comparison is false the alternative is evaluated at once — c2 is not looked at;
+     `l <o> r or c2`: when the comparison is true the value is evaluated at once — c2 is not looked at *)
+  Corollary and_short_circuit o (l r : sexpr) (c2 : scond) (a b : sexpr) catch t v x y ll lr :
+    eval_expr catch t v (nexpr l) = (EVal x, ll) -> eval_expr catch t v (nexpr r) = (EVal y, lr) ->
+    cmp_sem num ltb leb eqb o x y = false ->
+    eval_expr catch t v (nexpr (mk_if (SAnd (SCmp o l r) c2) a b)) =
+    (let '(res, lx) := eval_expr catch t v (nexpr b) in (res, ll ++ lr ++ lx)).
+  Proof.
+    intros Hl Hr Hc. cbn [mk_if]. rewrite (conditional_short_circuit o l r (mk_if c2 a b) b catch t v x y ll lr Hl Hr), Hc. reflexivity.
+  Qed.
+  Corollary or_short_circuit o (l r : sexpr) (c2 : scond) (a b : sexpr) catch t v x y ll lr :
+    eval_expr catch t v (nexpr l) = (EVal x, ll) -> eval_expr catch t v (nexpr r) = (EVal y, lr) ->
+    cmp_sem num ltb leb eqb o x y = true ->
+    eval_expr catch t v (nexpr (mk_if (SOr (SCmp o l r) c2) a b)) =
+    (let '(res, lx) := eval_expr catch t v (nexpr a) in (res, ll ++ lr ++ lx)).
+  Proof.
+    intros Hl Hr Hc. cbn [mk_if]. rewrite (conditional_short_circuit o l r a (mk_if c2 a b) catch t v x y ll lr Hl Hr), Hc. reflexivity.
+  Qed.
+
   (* ---- locality of the value: only the cells named by the statement's own terms matter ---- *)
   Theorem script_value_local (e : sexpr) catch t (v v' : vals num) :
     shape v' = shape v ->
